@@ -173,6 +173,7 @@ def tv(wd, tag, lines, diag="", timeout=1500, diag_k=None):
 class Window:
     def __init__(self, group, w, epoch, first):
         self.group, self.w, self.epoch, self.first = group, w, epoch, first  # first: first window of its epoch
+        self.kind, self.cfg = "random", ""
         self.audit = w >= 100000   # read-everything-back window at the end of a database instance (not counted)
         self.lines = []      # raw ndjson lines (Call/Ret/Maint), without Reset / Cut
         self.reset = None    # the Reset line if first
@@ -190,6 +191,8 @@ def split_windows(group, lines):
         if cur is None:
             cur = Window(group, e["w"], e["epoch"], reset is not None)
             cur.reset, cur.start, cur.cfg = reset, i, (epoch or {}).get("cfg", "")
+            m = re.search(r"kind=(\w+)", cur.cfg)
+            cur.kind = m.group(1) if m else "random"
             reset = None
         if e["ev"] == "Cut":
             wins.append(cur)
@@ -366,6 +369,9 @@ def run(chk, args):
     wd = vlib.scratch("C06")
     binp = vlib.go_build("c06")
     groups, per_group = (8, 250) if thorough else (6, 25)
+    # per group, on two more database instances: rounds of conflicting conditional writes started together on a synced store with
+    # a long sync period; windows of GetAll / Scan against tight-loop multi-key writers
+    race_rounds, snap_windows = (120, 40) if thorough else (30, 6)
     mc = {}
     mct = threading.Thread(target=run_mc, args=(chk, wd, mc))
     mct.start()
@@ -380,6 +386,7 @@ def run(chk, args):
         for attempt in range(3):
             try:
                 out, _ = vlib.run_harness(binp, ["-seed", str(chk.seed * 100 + g + 1000 * attempt), "-windows", str(per_group), "-epoch", "10",
+                                                 "-race-rounds", str(race_rounds), "-snap-windows", str(snap_windows),
                                                  "-dir", dd, "-out", tf], timeout=3000)
                 break
             except MachineryFault as ex:
@@ -395,8 +402,10 @@ def run(chk, args):
         vlib.log("[c06] group %d: harness done at +%.0fs" % (g, time.time() - chk.t0))
         lines = open(tf).readlines()
         wins = split_windows(g, lines)
-        if len([w for w in wins if not w.audit]) != per_group:
-            raise MachineryFault("group %d: expected %d windows, got %d" % (g, per_group, len([w for w in wins if not w.audit])))
+        nrand = len([w for w in wins if not w.audit and w.kind == "random"])
+        if nrand != per_group or len([w for w in wins if not w.audit and w.kind == "snap"]) != snap_windows:
+            raise MachineryFault("group %d: expected %d random and %d snap windows, got %d and %d" % (
+                g, per_group, snap_windows, nrand, len([w for w in wins if not w.audit and w.kind == "snap"])))
         res, cuts, hw = tv(wd, "g%d" % g, lines, timeout=3000)
         vlib.log("[c06] group %d: TLC done at +%.0fs (%d states, %.0fs)" % (g, time.time() - chk.t0, res.distinct, res.wall))
         return hr, lines, wins, res, cuts, hw
@@ -426,6 +435,19 @@ def run(chk, args):
     corrupted = {(w.group, w.epoch) for w in all_wins if w.audit and not w.accepted}
     counted = [w for w in all_wins if not w.audit]
     chk.cov["windows"] = len(counted)
+    chk.cov["windows_by_kind"] = {k: sum(1 for w in counted if w.kind == k) for k in ("random", "race", "snap")}
+    # vacuity guards of the targeted workloads (counted by the driver, see harness/cmd/c06/scenarios.go)
+    ctr = chk.cov.get("counters", {})
+    inwin, refused = ctr.get("race:writers-validated-inside-a-sync-window", 0), ctr.get("race:refused", 0)
+    overlap, rounds = ctr.get("snap:multi-key-reads-overlapping-a-multi-key-commit", 0), ctr.get("race:rounds", 0)
+    chk.cov["race_rounds"] = rounds
+    chk.cov["race_writers_validated_inside_a_sync_window"] = inwin
+    chk.cov["race_conditional_writes_refused"] = refused
+    chk.cov["multi_key_reads"] = ctr.get("snap:multi-key-reads", 0)
+    chk.cov["multi_key_reads_overlapping_a_multi_key_commit"] = overlap
+    if rounds != groups * race_rounds or inwin < rounds // 4 or refused < rounds // 4 or overlap < groups * snap_windows:
+        raise MachineryFault("vacuous targeted workload: %d race rounds (expected %d), %d writers validated inside another writer's sync window, "
+                             "%d conditional writes refused, %d multi-key reads overlapping a multi-key commit" % (rounds, groups * race_rounds, inwin, refused, overlap))
     chk.cov["windows_accepted"] = sum(1 for w in counted if w.accepted)
     chk.cov["audit_windows"] = sum(1 for w in all_wins if w.audit)
     chk.cov["audit_windows_rejected"] = len(corrupted)
